@@ -106,13 +106,18 @@ def _views(ds):
     out["coo_structure"] = sorted((users[int(r)], items[int(c)]) for r, c in zip(coo_s.row_numbers, coo_s.col_numbers))
     try: out["nnz"] = {"csr": int(s.nnz), "coo": int(coo_s.nnz), "shape_csr": [int(x) for x in s.shape], "shape_coo": [int(x) for x in coo_s.shape]}
     except Exception as e: out["nnz"] = {"error": type(e).__name__}
-    rows = []
-    for u in users:
-        il = ds.user_row(u)
+    rows = []; rows_n = []; absent = []
+    for n_, u in enumerate(users):
+        il = ds.user_row(u); il2 = ds.user_row(user_num=n_)
         rs = il.field("rating") if (il is not None and has_r) else None
+        if il is None or il2 is None: absent.append(u)            # a known user always has a row (an empty one if inactive)
         if il is not None:
             rows += [(u, int(i), None if rs is None else float(rs[k])) for k, i in enumerate(il.ids())]
-    out["user_rows"] = sorted(rows)
+        if il2 is not None:
+            rs2 = il2.field("rating") if has_r else None
+            rows_n += [(u, int(i), None if rs2 is None else float(rs2[k])) for k, i in enumerate(il2.ids())]
+    out["user_rows"] = sorted(rows); out["user_rows_by_number"] = sorted(rows_n); out["known_users_without_row"] = absent
+    out["unknown_user_row"] = ds.user_row(987654) is None
     us, its = ds.user_stats(), ds.item_stats()
     out["user_counts"] = {int(u): int(c) for u, c in us["count"].items()}
     out["item_counts"] = {int(i): int(c) for i, c in its["count"].items()}
@@ -138,7 +143,9 @@ def run(case: dict, lean: Lean) -> Outcome:
     try:
         v = _views(ds)
         ref = v["table"]
-        for name in ("scipy_csr", "scipy_coo", "torch_csr", "user_rows"):
+        if v["known_users_without_row"]: failed.append(f"known users {v['known_users_without_row']} have no row (an inactive user's row must be empty, not absent)")
+        if not v["unknown_user_row"]: failed.append("an unknown user has a row")
+        for name in ("scipy_csr", "scipy_coo", "torch_csr", "user_rows", "user_rows_by_number"):
             if name in v and v[name] != ref: failed.append(f"view {name} differs from the record table")
         if v["structure"] != sorted((u, i) for u, i, _ in ref): failed.append("CSR structure differs from the record table")
         if v["coo_structure"] != sorted((u, i) for u, i, _ in ref): failed.append("COO structure differs from the record table")
